@@ -18,7 +18,7 @@ LEVEL_NOTE = ("partial by design: the theorems are about the per-format field co
 
 QUICK = {"dbc": 45, "dbf": 45, "sym": 45, "kcd": 45, "json": 25, "json-all": 30, "xls-msbreverse": 20, "xls-msb": 20, "xls-lsb": 20,
          "arxml3": 22, "arxml4": 22}
-THOROUGH_FACTOR = 9
+THOROUGH_FACTOR = 40
 
 
 class Fwd(object):
@@ -68,7 +68,7 @@ def compare_layout(chk, viol, cfg, rng, orig, back, mk_info):
     nfr = 0
     want_buses = {fmt_rt.bus_key_after(cfg, n): m for n, m in orig.items()}
     if cfg.cluster and set(back.keys()) != set(want_buses.keys()):
-        viol(cfg.key + "-bus-set", "set of buses changed", mk_info(None), sorted(want_buses), sorted(back.keys()))
+        viol(cfg.kbase + "-bus-set", "set of buses changed", mk_info(None), sorted(want_buses), sorted(back.keys()))
     for bname, odb in want_buses.items():
         bdb = back.get(bname) if cfg.cluster else list(back.values())[0]
         if bdb is None:
@@ -79,15 +79,15 @@ def compare_layout(chk, viol, cfg, rng, orig, back, mk_info):
         for f in bdb.frames:
             bframes.setdefault(fmt_rt.fkey(f), f)
         if len(bkeys) != len(set(bkeys)):
-            viol(cfg.key + "-frame-duplicated", "a frame identity occurs twice after the round trip", mk_info(None), sorted(oframes), sorted(bkeys))
+            viol(cfg.kbase + "-frame-duplicated", "a frame identity occurs twice after the round trip", mk_info(None), sorted(oframes), sorted(bkeys))
         for k in sorted(oframes):
             if k not in bframes:
                 sub = "-bus-partition" if any(k in [fmt_rt.fkey(f) for f in m.frames] for n2, m in back.items() if n2 != bname) else ""
-                viol(cfg.key + "-frame-lost" + sub, "frame (id, extended) not found after the round trip" + (" on its own bus" if sub else ""),
+                viol(cfg.kbase + "-frame-lost" + sub, "frame (id, extended) not found after the round trip" + (" on its own bus" if sub else ""),
                      mk_info(oframes[k]), list(k), sorted(bframes))
         for k in sorted(bframes):
             if k not in oframes:
-                viol(cfg.key + "-frame-extra", "frame (id, extended) appears that was not written to this bus", mk_info(None), sorted(oframes), list(k))
+                viol(cfg.kbase + "-frame-extra", "frame (id, extended) appears that was not written to this bus", mk_info(None), sorted(oframes), list(k))
         for k in sorted(oframes):
             if k not in bframes:
                 continue
@@ -101,13 +101,13 @@ def compare_layout(chk, viol, cfg, rng, orig, back, mk_info):
                 got.setdefault(s.name, []).append(s)
             for n in exp:
                 if n not in got:
-                    viol(cfg.key + "-signal-lost", "signal not found by name after the round trip", info(n), n, got_names)
+                    viol(cfg.kbase + "-signal-lost", "signal not found by name after the round trip", info(n), n, got_names)
             for n in got:
                 if n not in exp:
-                    viol(cfg.key + "-signal-extra", "signal appears that was not written", info(n), sorted(exp), n)
+                    viol(cfg.kbase + "-signal-extra", "signal appears that was not written", info(n), sorted(exp), n)
                 elif len(got[n]) > 1:
                     same = all(fmt_rt.sig_positions(x) == fmt_rt.sig_positions(got[n][0]) for x in got[n])
-                    viol(cfg.key + "-signal-duplicated" + ("" if same else "-different-bits"),
+                    viol(cfg.kbase + "-signal-duplicated" + ("" if same else "-different-bits"),
                          "signal occurs %d times in the re-read frame" % len(got[n]), info(n), 1, len(got[n]))
             nontriv = k[1] or fo.size > 8
             for n, so in exp.items():
@@ -120,7 +120,7 @@ def compare_layout(chk, viol, cfg, rng, orig, back, mk_info):
                     nontriv = True
                     chk.count(cfg.fmt + ":motorola-crossing-bytes")
                 if int(so.size) != int(sb.size):
-                    viol(cfg.key + "-width", "signal width changed", info(n), int(so.size), int(sb.size))
+                    viol(cfg.kbase + "-width", "signal width changed", info(n), int(so.size), int(sb.size))
                 elif bool(so.is_little_endian) != bool(sb.is_little_endian):
                     viol(cfg.key + "-byteorder" + ("-mux" if so.is_multiplexer else ""), "byte order changed", info(n),
                          "intel" if so.is_little_endian else "motorola", "intel" if sb.is_little_endian else "motorola")
@@ -139,14 +139,14 @@ def compare_layout(chk, viol, cfg, rng, orig, back, mk_info):
                     chk.count("decode-original-raises")
                     continue
                 if isinstance(dbk, Exception):
-                    viol(cfg.key + "-decode-raises", "Frame.decode of the re-read frame raises", info(None) | {"payload": data.hex()}, "decoded", repr(dbk))
+                    viol(cfg.kbase + "-decode-raises", "Frame.decode of the re-read frame raises", info(None) | {"payload": data.hex()}, "decoded", repr(dbk))
                     break
                 bad = False
                 for so_name, ds in do.items():
                     n = fmt_rt.expected_signal_name(cfg, fo, ds.signal)
                     if n not in dbk:
                         if n in got:   # present but not decoded: the re-read frame selects other signals
-                            viol(cfg.key + "-decode-selection", "signal decoded from the original frame is not decoded from the re-read frame",
+                            viol(cfg.kbase + "-decode-selection", "signal decoded from the original frame is not decoded from the re-read frame",
                                  info(n) | {"payload": data.hex()}, sorted(do), sorted(dbk))
                             bad = True
                         continue
@@ -209,7 +209,73 @@ def run(chk):
             data, back = r
             compare_layout(chk, viol, cfg, rng, orig, back, mk_info)
             tie_cases.append((cfg, orig, data, back))
-    chk.sample({"format": "dbf", "frame": "id 0x18FEF100 extended, 8 bytes", "signal": "Motorola 12 bits, internal start 13 -> byte column 3, bit column 0"})
+    # ---- directed matrices (one per hazard) ----
+    for label, fmts, db in fmt_rt.directed(C):
+        for cfg in fmt_rt.CONFIGS:
+            if "C06" not in cfg.props or (fmts is not None and cfg.fmt not in fmts):
+                continue
+            buses = {"Directed": copy.deepcopy(db)} if cfg.cluster else {"": copy.deepcopy(db)}
+            orig = copy.deepcopy(buses)
+            chk.count("directed:" + label)
+
+            def mk_info(fr=None, sig=None, cfg=cfg, label=label):
+                d = {"format": cfg.key, "options": cfg.opts, "directed": label}
+                if fr is not None:
+                    d["frame"] = fmt_rt.frame_brief(fr)
+                if sig is not None:
+                    d["signal"] = sig
+                return d
+            r = round_trip(F, cfg, buses, viol, mk_info)
+            if r is None or r[1] is None:
+                if r is not None:
+                    tie_cases.append((cfg, orig, r[0], None))
+                continue
+            compare_layout(chk, viol, cfg, rng, orig, r[1], mk_info)
+            tie_cases.append((cfg, orig, r[0], r[1]))
+    # ---- placement sweep: one signal per frame, every (byte order, start, width) of an 8 byte frame ----
+    placements = [(le, st, w) for le in (True, False) for w in range(1, 65) for st in range(0, 65 - w)]
+    if chk.tier != "thorough":
+        placements = [p for p in placements if p[1] % 8 in (0, 7) or p[2] in (1, 8, 9, 12, 16, 17, 32, 33, 64) and rng.random() < 0.4 or rng.random() < 0.05]
+    else:
+        chk.notes.append("placement sweep: all %d (byte order, start, width) placements of an 8 byte frame per configuration" % len(placements))
+    for cfg in fmt_rt.CONFIGS:
+        if "C06" not in cfg.props:
+            continue
+        for base in range(0, len(placements), 48):
+            chunk = placements[base:base + 48]
+            db = C.CanMatrix()
+            db.add_ecu(C.Ecu("ETx"))
+            db.add_ecu(C.Ecu("ERx"))
+            for j, (le, st, w) in enumerate(chunk):
+                n = base + j
+                ext = n % 3 == 0
+                fid = (0x1000000 + 977 * n) if ext else (1 + n % 0x7FE)
+                fr = C.Frame("P%d" % n, arbitration_id=C.ArbitrationId(fid, ext), size=8)
+                fr.add_transmitter("ETx")
+                s = C.Signal("Q%d" % n, start_bit=st, size=w, is_little_endian=le, is_signed=False)
+                s.min, s.max = 0, (1 << w) - 1
+                s.add_receiver("ERx")
+                fr.add_signal(s)
+                fr.update_receiver()
+                db.add_frame(fr)
+            buses = {"Sweep": db} if cfg.cluster else {"": db}
+            orig = copy.deepcopy(buses)
+            chk.count("sweep-matrices:" + cfg.key)
+
+            def mk_info(fr=None, sig=None, cfg=cfg, base=base):
+                d = {"format": cfg.key, "options": cfg.opts, "sweep-chunk": base}
+                if fr is not None:
+                    d["frame"] = fmt_rt.frame_brief(fr)
+                if sig is not None:
+                    d["signal"] = sig
+                return d
+            r = round_trip(F, cfg, buses, viol, mk_info)
+            if r is None or r[1] is None:
+                continue
+            compare_layout(chk, viol, cfg, rng, orig, r[1], mk_info)
+            if base % 480 == 0:
+                tie_cases.append((cfg, orig, r[0], r[1]))
+    chk.sample({"format": "dbf", "frame": "id 0x18FEF100 extended, 8 bytes", "signal": "Motorola 12 bits, internal start 13 -> LSB in byte 3 bit 7: byte column 4, bit column 7"})
     chk.sample({"format": "arxml4", "buses": 3, "each bus": "exactly its own frames by (id, extended)"})
     if tie_cases:
         cfg, orig, data, back = tie_cases[0]
@@ -218,5 +284,124 @@ def run(chk):
     if not ok:
         chk.ties["correspondence"] = "not run (build failed)"
         return
-    import c06_tie
-    c06_tie.run_tie(chk, tie_cases)
+    tie(chk, tie_cases)
+
+
+# ----------------------------------------------------------------------------------------------------------------------
+def _reread_frame(cfg, bdb, fo):
+    for f in bdb.frames:
+        if f.name in (fo.name, "FRAME_" + fo.name):
+            return f
+    return None
+
+
+def tie(chk, tie_cases):
+    """W: fields in the real output == model write;  R: real reader's result == model read of the fields in the file."""
+    lines, expect, info = [], [], []
+
+    def add(cmd, groups, exp, inf):
+        lines.append(core.fmt_case(cmd, groups))
+        expect.append(exp)
+        info.append(inf)
+    nread_raise = 0
+    for cfg, orig, data, back in tie_cases:
+        try:
+            ex = fmt_rt.extract(cfg, data)
+        except Exception as e:  # noqa
+            chk.tie_break("extractor", {"format": cfg.key}, "extractor failed: %r" % e, None)
+            continue
+        code, nota = cfg.code, fmt_rt.NOTATION_CODE[cfg.notation]
+        names = {n: i for i, n in enumerate([""] + sorted(x for x in orig if x) + ["CAN"])}
+        for bname, odb in orig.items():
+            xb = ex.get(fmt_rt.bus_key_after(cfg, bname) if cfg.cluster else "", {})
+            bdb = None
+            if back is not None:
+                bdb = back.get(fmt_rt.bus_key_after(cfg, bname)) if cfg.cluster else list(back.values())[0]
+            if cfg.cluster and back is not None:
+                # bus partition: model = dict the reader builds from the buses in the file
+                groups = [[names["CAN"] if cfg.fmt == "arxml" else 0, names[bname]]]
+                for n2, m2 in orig.items():
+                    g = [names[n2]]
+                    for f in m2.frames:
+                        if fmt_rt.frame_written(cfg, f):
+                            g += [f.arbitration_id.id, int(bool(f.arbitration_id.extended))]
+                    groups.append(g)
+                got = [[1]] + sorted([f.arbitration_id.id, int(bool(f.arbitration_id.extended))] for f in bdb.frames) if bdb is not None else [[0]]
+                add(606, groups, ("sorted", got), {"format": cfg.key, "bus": bname})
+            for fo in odb.frames:
+                if not fmt_rt.frame_written(cfg, fo):
+                    continue
+                xf = xb.get(fo.name)
+                inf = {"format": cfg.key, "frame": fo.name, "id": [fo.arbitration_id.id, bool(fo.arbitration_id.extended)]}
+                if xf is None:
+                    chk.tie_break("extract-frame", inf, "frame not found in the file by the extractor", None)
+                    continue
+                add(603, [[code, fo.arbitration_id.id, int(bool(fo.arbitration_id.extended))]], [xf["id"]], dict(inf, what="id fields in file"))
+                fb = _reread_frame(cfg, bdb, fo) if bdb is not None else None
+                if back is None:
+                    nread_raise += 1
+                    add(604, [[code], xf["id"]], ("not-raise",), dict(inf, what="reader raised on this file; model must raise on some frame"))
+                elif fb is not None:
+                    add(604, [[code], xf["id"]], [[1, fb.arbitration_id.id, int(bool(fb.arbitration_id.extended))]], dict(inf, what="id read"))
+                for so in fo.signals:
+                    sinf = dict(inf, signal=so.name, pos=[bool(so.is_little_endian), int(so.size), int(so.start_bit)])
+                    args = [int(bool(so.is_little_endian)), int(so.size), int(so.start_bit)]
+                    xs_list = []
+                    c = code
+                    if cfg.fmt == "sym" and so.is_multiplexer:
+                        xs_list = [m["pos"] for m in xf.get("muxlines", [])]
+                    elif cfg.fmt == "kcd" and so.is_multiplexer:
+                        c = 8
+                        xs_list = [xf["signals"][so.name]["pos"]] if so.name in xf["signals"] else []
+                    elif so.name in xf["signals"]:
+                        xs_list = [xf["signals"][so.name]["pos"]]
+                    if not xs_list:
+                        chk.tie_break("extract-signal", sinf, "signal not found in the file by the extractor", None)
+                        continue
+                    for xs in xs_list:
+                        add(601, [[c, nota] + args], [xs], dict(sinf, what="position fields in file"))
+                    if fb is not None:
+                        sb = next((s for s in fb.signals if s.name == fmt_rt.expected_signal_name(cfg, fo, so)), None)
+                        if sb is not None:
+                            add(602, [[c, nota], xs_list[0]], [[1, int(bool(sb.is_little_endian)), int(sb.size), int(sb.start_bit)]],
+                                dict(sinf, what="position read"))
+    out = core.run_model(lines)
+    bad = 0
+    raise_ok = False
+    for inf, exp, o in zip(info, expect, out):
+        got = core.parse_out(o)
+        if isinstance(exp, tuple) and exp[0] == "sorted":
+            got = [got[0]] + sorted(got[1:])
+            exp = exp[1]
+        if isinstance(exp, tuple) and exp[0] == "not-raise":
+            continue
+        if got != exp:
+            bad += 1
+            chk.tie_break("fmtpos", inf, got, exp)
+    # files on which the real reader raised: the model must raise on at least one of their frames
+    if nread_raise:
+        by_file = {}
+        for inf, exp, o in zip(info, expect, out):
+            if isinstance(exp, tuple) and exp[0] == "not-raise":
+                by_file.setdefault(inf["format"], []).append(core.parse_out(o) == [[0]])
+        for k, v in by_file.items():
+            if not any(v):
+                bad += 1
+                chk.tie_break("fmtpos-reader-raise", {"format": k}, "model reads every identity", "implementation's reader raised")
+    chk.ties["correspondence"] = {"suite": "fmtpos W+R (cmd 601-604, 606)", "cases": len(lines), "disagreements": bad,
+                                  "files": len(tie_cases)}
+    idx = chk.rng.sample(range(len(lines)), min(300, len(lines)))
+    shard = []
+    for i in idx:
+        if isinstance(expect[i], tuple):
+            continue
+        c, groups = lines[i].split(" ", 1)
+        shard.append((int(c, 16), core.parse_out(groups), expect[i]))
+    mm, log = core.coq_shard(shard, "c06")
+    chk.ties["vm_compute_shard"] = {"cases": len(shard), "mismatches": mm}
+    if mm is None:
+        chk.obligation_failures.append("in-Coq shard failed to evaluate")
+        chk.build_log = log[-3000:]
+    else:
+        for i in mm:
+            chk.tie_break("fmtpos-shard", shard[i][1], "vm_compute differs", shard[i][2])
